@@ -2,7 +2,7 @@
     satisfiable (non-vacuity). *)
 From Coq Require Import ZArith NArith List Bool Arith Lia.
 From CB Require Import Common.IntN Wasm.Syntax Gen.Limits Wasm.Validate Wasm.ValidateLimits Wasm.Typing
-  Wasm.ValidateProofs Wasm.ValidateComplete Wasm.Sem Wasm.TypeSound Wasm.Accepted.
+  Wasm.ValidateProofs Wasm.ValidateComplete Wasm.Sem Wasm.TypeSound Wasm.Accepted Wasm.Parse Wasm.ParseProofs.
 Import ListNotations.
 
 Definition vm_ex : vmodule :=
@@ -62,4 +62,21 @@ Proof.
   - destruct (validate_sound_thm ex_ctx ops_live 2%nat) as (is & SB & BO); [vm_compute; reflexivity|vm_compute; reflexivity|].
     vm_compute in SB. inversion SB; subst. exact BO.
   - split; [vm_compute; reflexivity|]. split; [vm_compute; reflexivity|]. repeat constructor.
+Qed.
+
+(** a complete module in binary form: type () -> (), one function, exported as "f0", body = end *)
+Definition bytes_ex : list N :=
+  [0x00; 0x61; 0x73; 0x6d; 0x01; 0x00; 0x00; 0x00;
+   0x01; 0x04; 0x01; 0x60; 0x00; 0x00;
+   0x03; 0x02; 0x01; 0x00;
+   0x00; 0x05; 0x04; 0x6e; 0x61; 0x6d; 0x65;
+   0x07; 0x06; 0x01; 0x02; 0x66; 0x30; 0x00; 0x00;
+   0x0a; 0x04; 0x01; 0x02; 0x00; 0x0b]%N.
+Example parse_example :
+  accepts cfg_v1 bytes_ex = true /\ accepts cfg_v0 bytes_ex = true /\
+  (exists ss r a, parse_skeleton bytes_ex = POk ss r a /\ noncustom_ids ss = [1; 3; 7; 10]%N) /\
+  accepts cfg_v1 (bytes_ex ++ [0x03; 0x02; 0x01; 0x00]%N) = false.
+Proof.
+  split; [vm_compute; reflexivity|]. split; [vm_compute; reflexivity|]. split; [|vm_compute; reflexivity].
+  vm_compute. eexists _, _, _. split; reflexivity.
 Qed.
